@@ -82,16 +82,14 @@ Fixpoint print_expr (e : expr) : list tok :=
   | ESet es => TPu PLBrace :: sep (map print_expr es) ++ [TPu PRBrace]
   | EParen x => TPu PLParen :: print_expr x ++ [TPu PRParen]
   | ERange s e incl => print_expr s ++ TOp (if incl then ODotDotEq else ODotDot) :: print_expr e
-  | EClosure ps body =>   (* format_params on closure params: `(x: _)` *)
-      TPu PLParen :: sep (map (fun n => [TId n; TPu PColon; TId underscore]) ps) ++ TPu PRParen :: TPu PFatArrow :: print_expr body
+  | EClosure ps body =>   (* closure parameters are bare names (the placeholder type `_` is not printed) *)
+      TPu PLParen :: sep (map (fun n => [TId n]) ps) ++ TPu PRParen :: TPu PFatArrow :: print_expr body
   end.
 
 Definition print_arg (a : option N * expr) : list tok :=
   match fst a with Some n => TId n :: TOp OEq :: print_expr (snd a) | None => print_expr (snd a) end.
 
-(* Expr::If arm: `format_expr(condition); write(" if ")` and nothing else *)
-Definition print_if_expr (c : expr) (then_body else_body : list stmt) : list tok := print_expr c ++ [TKw KIf].
-
+(* moved below print_stmt: the Expr::If arm prints `if cond:` + indented bodies *)
 Definition print_binding (b : binding) : list tok :=
   match b with BLet => [TKw KLet] | BMutable => [TKw KMut] | BInferred | BReassign => [] end.
 
@@ -111,6 +109,14 @@ Definition print_stmt (s : stmt) : list tok :=
   | SReturn (Some e) => TKw KReturn :: print_expr e
   | SPass => [TKw KPass] | SBreak => [TKw KBreak] | SContinue => [TKw KContinue]
   end.
+
+(* Expr::If arm (block form): `if cond:` NEWLINE INDENT body DEDENT [`else:` NEWLINE INDENT body DEDENT];
+   TOther 5 / TOther 6 stand for the layout tokens Indent / Dedent, KElse is TOther 7 (simple statements only) *)
+Definition print_block (b : list stmt) : list tok :=
+  TPu PColon :: TNewline :: TOther 5 :: flat_map (fun s => print_stmt s ++ [TNewline]) (match b with [] => [SPass] | _ => b end) ++ [TOther 6].
+Definition print_if_expr (c : expr) (then_body : list stmt) (else_body : option (list stmt)) : list tok :=
+  TKw KIf :: print_expr c ++ print_block then_body ++
+  match else_body with Some e => TOther 7 :: print_block e | None => [] end.
 
 (* format_type; identifiers: 1 = "Tuple", 2 = "None", 3 = "Self" *)
 Definition id_Tuple : N := 1%N.
